@@ -32,6 +32,30 @@ def one(spec):
     for method in ("2site", "1site"):
         x = mps.copy()
         x.compress_config = CompressConfig(CompressCriteria.fixed, max_bonddim=bound, vmethod=method, vrtol=1e-10)
+        if spec.get("fault") is not None:
+            # FAULT stream: every site tensor is spilled to disk and numpy.save fails from the k-th call on
+            import errno, shutil, tempfile
+            from unittest import mock
+            dump_dir = tempfile.mkdtemp(prefix="c04_vfault_")
+            calls = {"n": 0}
+            real_save = np.save
+
+            def flaky(fname, arr, *a, **kw):
+                calls["n"] += 1
+                if calls["n"] > spec["fault"]:
+                    raise OSError(errno.ENOSPC, "No space left on device (simulated)")
+                return real_save(fname, arr, *a, **kw)
+            x.compress_config = CompressConfig(CompressCriteria.fixed, max_bonddim=bound, vmethod=method, vrtol=1e-10,
+                                               dump_matrix_size=1, dump_matrix_dir=dump_dir)
+            try:
+                with mock.patch("numpy.save", side_effect=flaky):
+                    y = x.variational_compress(mpo)
+                    res[method] = float(np.linalg.norm(G.dense(y) - ref) / np.linalg.norm(ref))
+                    res[method + "_dims_ok"] = bool(all(int(d) <= bound for d in y.bond_dims))
+            finally:
+                y = None
+                shutil.rmtree(dump_dir, ignore_errors=True)
+            continue
         y = x.variational_compress(mpo)
         res[method] = float(np.linalg.norm(G.dense(y) - ref) / np.linalg.norm(ref))
         res[method + "_dims_ok"] = bool(all(int(d) <= bound for d in y.bond_dims))
@@ -94,18 +118,35 @@ def one_hard(spec):
     except (FloatingPointError, ZeroDivisionError):
         raise G.GenFail("Mps.random")
     ref = dense_operator(mpo) @ dense_state(mps)
-    if np.linalg.norm(ref) < 1e-8:
+    if not np.linalg.norm(ref) > 1e-8 * np.linalg.norm(dense_operator(mpo)) * np.linalg.norm(dense_state(mps)) / 2 ** (n / 2):
         raise G.GenFail("zero product")
     ranks = []
     for i in range(1, n):
         sv = np.linalg.svd(ref.reshape(2 ** i, -1), compute_uv=False)
         ranks.append(int((sv > 1e-11 * sv[0]).sum()))
     M = max(ranks) if spec["mrule"] == "rank" else 2 ** (n // 2)
-    guess.compress_config = CompressConfig(CompressCriteria.fixed, max_bonddim=M, vmethod=spec["method"],
-                                           vprocedure=[[M, 0]] * spec.get("nsweep", 30), vrtol=1e-10)
-    out = mps.variational_compress(mpo, guess=guess)
-    err = float(np.linalg.norm(dense_state(out) - ref) / np.linalg.norm(ref))
-    return {"err": err, "M": M, "ranks": ranks, "dims": [int(x) for x in out.bond_dims]}
+    vrtol = spec.get("vrtol", 1e-10)
+
+    def run(state, g):
+        g = g.copy()
+        g.compress_config = CompressConfig(CompressCriteria.fixed, max_bonddim=M, vmethod=spec["method"],
+                                           vprocedure=[[M, 0]] * spec.get("nsweep", 30), vrtol=vrtol)
+        return state.variational_compress(mpo, guess=g)
+    res = {"M": M, "ranks": ranks}
+    if spec.get("scale"):
+        # SCALE stream: the same problem with the state multiplied by c (the result has norm ~ |c|); the stopping
+        # test must not depend on it: result = c * dense(mpo @ psi) relatively, and = c * result(psi) (homogeneity)
+        cval = spec["scale"]
+        out1 = run(mps, guess)
+        outc = run(mps.scale(cval), guess)
+        e_c = float(np.linalg.norm(dense_state(outc) - cval * ref) / np.linalg.norm(cval * ref))
+        e_h = float(np.linalg.norm(dense_state(outc) - cval * dense_state(out1)) / np.linalg.norm(cval * dense_state(out1)))
+        res.update({"err": max(e_c, e_h), "err_dense": e_c, "err_homogeneity": e_h, "err_unscaled": float(np.linalg.norm(dense_state(out1) - ref) / np.linalg.norm(ref)),
+                    "dims": [int(x) for x in outc.bond_dims]})
+        return res
+    out = run(mps, guess)
+    res.update({"err": float(np.linalg.norm(dense_state(out) - ref) / np.linalg.norm(ref)), "dims": [int(x) for x in out.bond_dims]})
+    return res
 
 
 def main():
